@@ -85,8 +85,39 @@ def run(task):
         m = sum(len(us) for _, us in byann)
         own = {(a, x) for a, us in byann for x in us}
         c = build_continuum(spec)
+        from pyannote.core import Segment as _Seg
+        other_c = build_continuum(spec)
+        other_c.add(byann[0][0], _Seg(30, 31), "other")  # a different continuum stored at construction
         good, bad = candidates(byann)
         pool = good + bad
+        # ---- a continuum that has annotators but NO unit, passed explicitly: every own unit (there is none) occurs
+        #      exactly once, so any alignment without a repeated couple is accepted - judged against THAT continuum
+        empty_c = pa.Continuum()
+        for a, _ in byann:
+            empty_c.add_annotator(a)
+        if good:
+            for stored in (None, c, other_c):
+                for nts_idx in ([0], [0, 1] if len(good) > 1 else [0]):
+                    def mk():
+                        return [pa.UnitaryAlignment([(a, None if x is None else to_unit(x)) for a, x in good[i]])
+                                for i in nts_idx]
+                    couples = [(a, x) for i in nts_idx for a, x in good[i] if x is not None]
+                    if len(set(couples)) != len(couples):
+                        continue  # a foreign couple twice: unspecified
+                    g = verdict(lambda: pa.Alignment(mk(), continuum=stored).check(empty_c))
+                    g2 = verdict(lambda: SoftAlignment(mk(), continuum=stored).check(empty_c))
+                    res["evaluations"] += 2
+                    res["transitions"] += 2
+                    res["traces"] += 2
+                    for point, gg in (("hard.check(empty)", g), ("soft.check(empty)", g2)):
+                        if point.startswith("soft") and gg != "ok":
+                            continue  # foreign slots in a soft check: unspecified
+                        if gg != "ok":
+                            res["violations"].append({
+                                "msg": f"{point}: {gg} for an alignment checked against an explicitly passed continuum that has "
+                                       f"annotators but no unit (stored continuum: {'none' if stored is None else 'another one'})",
+                                "case": {"spec": spec, "nts": [good[i] for i in nts_idx], "point": point},
+                                "sig": h([point, gg, len(res["violations"]) // 2])})
         uas_cache = {}
         for size in range(1, min(m + 1, cap_size) + 1):
             for combo in itertools.combinations_with_replacement(range(len(pool)), size):
@@ -131,13 +162,15 @@ def run(task):
                     got = {
                         "hard.check": verdict(lambda: pa.Alignment(uas(), continuum=c).check()),
                         "hard.check(c)": verdict(lambda: pa.Alignment(uas()).check(c)),
+                        # the continuum passed explicitly wins over the one stored at construction
+                        "hard.check(c)|other stored": verdict(lambda: pa.Alignment(uas(), continuum=other_c).check(c)),
                         "hard.ctor": verdict(lambda: pa.Alignment(uas(), continuum=c, check_validity=True)),
                         "soft.check": verdict(lambda: SoftAlignment(uas(), continuum=c).check()),
                         "soft.ctor": verdict(lambda: SoftAlignment(uas(), continuum=c, check_validity=True)),
                     }
-                    res["evaluations"] += 5
-                    res["transitions"] += 5
-                    res["traces"] += 5
+                    res["evaluations"] += 6
+                    res["transitions"] += 6
+                    res["traces"] += 6
                     for point, g in got.items():
                         want = want_hard if point.startswith("hard") else want_soft
                         if want is None:
@@ -183,6 +216,21 @@ def run(task):
     return res
 
 
+def _other(spec):
+    from pyannote.core import Segment
+    o = build_continuum(spec)
+    o.add(spec_by_annotator(spec)[0][0], Segment(30, 31), "other")
+    return o
+
+
+def _empty(byann):
+    from ..load import load
+    e = load().Continuum()
+    for a, _ in byann:
+        e.add_annotator(a)
+    return e
+
+
 def replay(case):
     from ..load import load
     pa = load()
@@ -209,10 +257,15 @@ def replay(case):
     point = case["point"]
     fn = {"hard.check": lambda: pa.Alignment(uas(), continuum=c).check(),
           "hard.check(c)": lambda: pa.Alignment(uas()).check(c),
+          "hard.check(c)|other stored": lambda: pa.Alignment(uas(), continuum=_other(spec)).check(c),
+          "hard.check(empty)": lambda: pa.Alignment(uas()).check(_empty(byann)),
+          "soft.check(empty)": lambda: SoftAlignment(uas()).check(_empty(byann)),
           "hard.ctor": lambda: pa.Alignment(uas(), continuum=c, check_validity=True),
           "soft.check": lambda: SoftAlignment(uas(), continuum=c).check(),
           "soft.ctor": lambda: SoftAlignment(uas(), continuum=c, check_validity=True)}[point]
     want = hard if point.startswith("hard") else soft
+    if point.endswith("(empty)"):
+        want = "ok"
     g = verdict(fn)
     if point.startswith("soft") and want == "SetPartitionError" and foreign and g != "ok":
         return []
